@@ -63,7 +63,9 @@ func buildAccount(ct c13Content, r *Rng) *jwt.AccountClaims {
 	}
 	for _, t := range ct.Tiers {
 		t := t
-		steps = append(steps, func() { a.Limits.JetStreamTieredLimits[t] = jwt.JetStreamLimits{MemoryStorage: int64(len(t)), Streams: 3} })
+		steps = append(steps, func() {
+			a.Limits.JetStreamTieredLimits[t] = jwt.JetStreamLimits{MemoryStorage: int64(len(t)), Streams: 3}
+		})
 	}
 	for _, i := range perm(r, len(steps)) {
 		steps[i]()
